@@ -208,3 +208,35 @@ def pending_tasks_after_failure(f, **kw):
         return False
     end = [e for e in f.result["item"]["ev"] if e["k"] == "END"]
     return bool(end) and end[-1].get("closed") is True and all(n.startswith(("Runner for", "Task")) for n in end[-1].get("pendnames", []))
+
+
+def d28_cross_time_hops(f, **kw):
+    """D28: the loop guard fired although fewer than max_loop_iterations steps began at that integer time, in an
+    execution where a sub-step index can be carried from an EARLIER time step: a time-shifted connection between two
+    simulators of one (non-root) group, or an output dated into the future that travels over a weak connection."""
+    case, res = f.case, f.result
+    if not case or not res:
+        return False
+    scn = case.get("scn") or res.get("scn") or {}
+    sims = {s["sid"]: s for s in scn.get("sims", [])}
+    if not sims:
+        return False
+
+    def common(a, b):
+        k = 0
+        ga, gb = sims[a].get("gpath", []), sims[b].get("gpath", [])
+        while k < len(ga) and k < len(gb) and ga[k] == gb[k]:
+            k += 1
+        return k
+
+    conns = scn.get("conns", [])
+    if any(c.get("shift", 0) > 0 and common(c["src"], c["dst"]) >= 1 for c in conns):
+        return True
+    weak_src = {c["src"] for c in conns if c.get("weak")}
+    t_of = {}
+    for e in (res.get("item") or {}).get("ev", []):
+        if e["k"] == "SB":
+            t_of[e["s"]] = e["t"]
+        elif e["k"] == "DE" and e["s"] in weak_src and e.get("otk") == "int" and e.get("ot", 0) > t_of.get(e["s"], 0):
+            return True
+    return False
